@@ -399,6 +399,14 @@ pub trait Space<VM: VMBinding>: 'static + SFT + Sync + Downcast {
             .verify_metadata_context(std::any::type_name::<Self>(), &self.common().metadata)
     }
 
+    /// Verification hook: the `(global, local)` specs of the side metadata context this space
+    /// maps and accesses (the same context `verify_side_metadata_sanity` checks).
+    #[cfg(feature = "mmtk_verif")]
+    fn verif_side_metadata_specs(&self) -> (&[SideMetadataSpec], &[SideMetadataSpec]) {
+        let ctx = &self.common().metadata;
+        (&ctx.global, &ctx.local)
+    }
+
     /// Enumerate objects in the current space.
     ///
     /// Implementers can use the `enumerator` to report
